@@ -254,6 +254,70 @@ func genC06(tier string) []*batch.Case {
 			}
 		}
 	}
+	// Variable casts and type definitions: a definition is a type of its own, so a Variable holding the
+	// underlying type is not convertible to the definition, nor the other way round, nor to another
+	// definition of the same underlying type
+	{
+		nummer, nummer2 := DefOf("Nummer", "f", Zahl), DefOf("Ziffer", "f", Zahl)
+		kennz, bruch := DefOf("Kennzeichen", "n", Text), DefOf("Bruch", "m", Komma)
+		reihe := DefOf("Reihe", "f", ListOf(Zahl))
+		marke, bit := DefOf("Marke", "f", Char), DefOf("Schalter", "m", Bool)
+		oktett := DefOf("Oktett", "n", Byte)
+		defs := []*Type{nummer, nummer2, kennz, bruch, reihe, marke, bit, oktett}
+		type hv struct {
+			t *Type
+			v Value
+		}
+		var hs []hv
+		for _, h := range held[:7] { // the primitives and the Zahlen Liste
+			hs = append(hs, hv{h.t, h.v})
+		}
+		for _, d := range defs {
+			for _, h := range held {
+				if h.t.Eq(d.Under()) {
+					hs = append(hs, hv{d, h.v})
+				}
+			}
+		}
+		mkv := func(h hv) Expr { // a value of type h.t
+			if h.t.Def == "" {
+				return valueExpr(h.t, h.v)
+			}
+			return &Cast{X: valueExpr(h.t.Under(), h.v), T: h.t}
+		}
+		for _, h := range hs {
+			for _, to := range hs {
+				if h.t.Def == "" && to.t.Def == "" {
+					continue // covered above
+				}
+				if !h.t.Under().Eq(to.t.Under()) && h.t.Def != "" && to.t.Def != "" {
+					continue // two definitions of different underlying types: nothing new over def×primitive
+				}
+				for _, form := range []string{"var", "temp"} {
+					cnt++
+					pfx := fmt.Sprintf("c%d", cnt)
+					var body []Stmt
+					var src Expr = &Cast{X: mkv(h), T: Any}
+					if form == "var" {
+						a := vr(pfx+"_a", Any)
+						body = one(&VarDecl{Name: a.Name, T: Any, Init: src})
+						src = a
+					}
+					if h.t.Eq(to.t) {
+						var back Expr = &Cast{X: src, T: to.t}
+						if to.t.Def != "" {
+							back = &Cast{X: back, T: to.t.Under()}
+						}
+						body = seq(one(prs("start\n")), body, observe(pfx, back, h.v), one(prs("ende\n")))
+					} else {
+						body = seq(one(prs("start\n")), body, one(&VarDecl{Name: pfx + "_r", T: to.t, Init: &Cast{X: src, T: to.t}}), one(prs("nicht erreichbar\n")))
+					}
+					out = append(out, &batch.Case{Key: "any-cast-def:" + h.t.String() + "->" + to.t.String() + ":" + form, Desc: "Variable holding " + h.t.String() + " converted to " + to.t.String(),
+						Aliases: defs, Body: body})
+				}
+			}
+		}
+	}
 	// the unimplemented statement
 	{
 		f := &Func{Name: "unfertig", Ret: Zahl, Body: seq(one(prs("in f\n")), one(&Todo{}), one(&Return{X: zl(1)}))}
